@@ -377,9 +377,13 @@ def killed_peer_case(ctx, seed):
         port.close()
 
 
-def server_case(ctx, seed, nclients, mode):
+def server_case(ctx, seed, nclients, mode, clock='steady'):
     rng = random.Random(seed)
-    case = lambda: {'kind': 'server', 'seed': seed, 'clients': nclients, 'mode': mode}  # noqa: E731
+    case = lambda: {'kind': 'server', 'seed': seed, 'clients': nclients, 'mode': mode, 'wall_clock': clock}  # noqa: E731
+    # the wall clock may be set back by an hour while the server runs (all waiting here is on the monotonic clock)
+    real_time, offset = time.time, [0.0]
+    if clock != 'steady':
+        time.time = lambda: real_time() + offset[0]
     sleeps = Sleeps(limit=300, real=0.001)
     orig = mido.ports.sleep
     mido.ports.sleep = sleeps
@@ -391,6 +395,8 @@ def server_case(ctx, seed, nclients, mode):
         sent = []
         got = []
         for c in range(nclients):
+            if c == 1 and clock != 'steady':
+                offset[0] -= 3600.0
             cl = connect('127.0.0.1', portno)
             clients.append(cl)
             # the default listen backlog is 1: let the server accept before the next client connects
@@ -406,9 +412,9 @@ def server_case(ctx, seed, nclients, mode):
                 m = Message('note_on', channel=c, note=q, velocity=rng.randrange(128))
                 cl.send(m)
                 sent.append(m)
-        t_end = time.time() + 20
+        t_end = time.monotonic() + 20
         rounds = 0
-        while len(got) < len(sent) and time.time() < t_end and rounds < 3000:
+        while len(got) < len(sent) and time.monotonic() < t_end and rounds < 3000:
             rounds += 1
             sleeps.n = 0
             if mode == 'poll':
@@ -448,9 +454,9 @@ def server_case(ctx, seed, nclients, mode):
                 sp = [p for p in srv_ports if True][0]
                 sp.close()
                 # which client is connected to sp is unknown: some client must see EOF
-                deadline = time.time() + 5
+                deadline = time.monotonic() + 5
                 seen = False
-                while time.time() < deadline and not seen:
+                while time.monotonic() < deadline and not seen:
                     for cl in clients:
                         if not cl.closed and wait_readable(cl._socket, 0.01):
                             cl.poll()
@@ -459,9 +465,9 @@ def server_case(ctx, seed, nclients, mode):
                     time.sleep(0.001)
                 ctx.check('close is seen by the peer', seen, 'server-side-close-invisible', case, None)
         server.close()
-        deadline = time.time() + 5
+        deadline = time.monotonic() + 5
         allclosed = False
-        while time.time() < deadline and not allclosed:
+        while time.monotonic() < deadline and not allclosed:
             for cl in clients:
                 if not cl.closed and wait_readable(cl._socket, 0.01):
                     cl.poll()
@@ -474,6 +480,7 @@ def server_case(ctx, seed, nclients, mode):
         ctx.fail('server hands out every client message exactly once', f'server:{type(exc).__name__}', case,
                  f'{type(exc).__name__}: {exc}')
     finally:
+        time.time = real_time
         mido.ports.sleep = orig
         for cl in clients:
             try:
@@ -815,6 +822,10 @@ def run(ctx):
         server_case(ctx, f'{ctx.seed}:{ctx.shard}:s{j}', 1 + (j + ctx.shard) % 3, modes[(j + ctx.shard) % 3])
         ctx.nontrivial(('server', ctx.seed, ctx.shard, j))
         n += 1
+        if j == 0:
+            server_case(ctx, f'{ctx.seed}:{ctx.shard}:t{j}', 2 + ctx.shard % 2, modes[ctx.shard % 3], clock='set back an hour')
+            ctx.nontrivial(('server-clock', ctx.seed, ctx.shard, j))
+            n += 1
     for j in range(2 if ctx.tier == 'quick' else 100):
         reply_to_departed_peer_case(ctx, f'{ctx.seed}:{ctx.shard}:d{j}')
         ctx.nontrivial(('departed', ctx.seed, ctx.shard, j))
@@ -861,6 +872,6 @@ def replay(ctx, case):
     elif k == 'reply-to-departed':
         reply_to_departed_peer_case(ctx, case['seed'], case.get('sends_after_reset', 0))
     elif k == 'server':
-        server_case(ctx, case['seed'], case['clients'], case['mode'])
+        server_case(ctx, case['seed'], case['clients'], case['mode'], case.get('wall_clock', 'steady'))
     else:
         address_cases(ctx, 0, 16)
